@@ -257,3 +257,245 @@ Proof.
     with (eps c + nQ (length (ln_discounts l)) * (3 * eps c) + nQ (length (ln_charges l)) * (3 * eps c)) by ring.
   apply cl_plus; [apply cl_minus|]; assumption.
 Qed.
+
+(* ------------------------------------------------------------------------------------------ *)
+(* all lines, the document sum, document discounts and charges                                 *)
+(* ------------------------------------------------------------------------------------------ *)
+Inductive lines_close (c : nat) : list line -> list iline -> list iline -> Prop :=
+| lines_close_nil : lines_close c [] [] []
+| lines_close_cons l il il' ls ils ils' :
+    cl (e_line l * eps c) (fq (il_total il)) (fq (il_total il')) -> (c + 2 <= fp (il_total il))%nat ->
+    lines_close c ls ils ils' -> lines_close c (l :: ls) (il :: ils) (il' :: ils').
+
+Definition e_sum (ls : list line) : Q := sumQl (map e_line ls).
+
+Lemma s_lines_close c cur rates ls : Forall (simple_line cur) ls ->
+  exists ils ils', s_lines rnd false c cur rates ls = Some ils /\ s_lines noround false c cur rates ls = Some ils' /\
+    lines_close c ls ils ils'.
+Proof.
+  intros F. induction F as [|l r H _ IH]; cbn [s_lines].
+  - exists [], []. repeat split. constructor.
+  - destruct (s_line_close c cur rates l H) as (il & il' & E1 & E2 & C & W).
+    destruct IH as (ils & ils' & I1 & I2 & LC). rewrite E1, E2, I1, I2.
+    eexists. eexists. split; [reflexivity|]. split; [reflexivity|]. constructor; assumption.
+Qed.
+
+Lemma maxl_ge_z l z : (z <= maxl l z)%nat.
+Proof. induction l; cbn [maxl fold_right]; [lia|]. fold (maxl l z). lia. Qed.
+
+Lemma lines_sum_close c ls ils ils' : lines_close c ls ils ils' ->
+  cl (e_sum ls * eps c) (fq (s_sum_figs c (map il_total ils))) (fq (s_sum_figs c (map il_total ils'))) /\
+  (ls <> [] -> (c + 2 <= fp (s_sum_figs c (map il_total ils)))%nat).
+Proof.
+  intros LC. unfold s_sum_figs. cbn [fq fp]. split.
+  - induction LC as [|l il il' ls ils ils' C W _ IH]; cbn [map sumQl fold_right e_sum].
+    + setoid_replace (0 * eps c) with 0 by ring. apply cl_refl.
+    + fold (e_sum ls). setoid_replace ((e_line l + e_sum ls) * eps c) with (e_line l * eps c + e_sum ls * eps c) by ring.
+      apply cl_plus; assumption.
+  - intros NE. destruct LC as [|l il il' ls ils ils' C W _]; [congruence|].
+    cbn [map maxl fold_right]. lia.
+Qed.
+
+Lemma e_line_nonneg l : 0 <= e_line l.
+Proof. unfold e_line. pose proof (nQ_nonneg (length (ln_discounts l))). pose proof (nQ_nonneg (length (ln_charges l))). lra. Qed.
+
+Lemma e_sum_nonneg ls : 0 <= e_sum ls.
+Proof.
+  unfold e_sum. induction ls as [|l r IH]; cbn [map sumQl fold_right]; [lra|].
+  pose proof (e_line_nonneg l). fold (sumQl (map e_line r)). lra.
+Qed.
+
+Definition simple_drow (d : ddc) : Prop := pct_ok (dd_pct d).
+
+Lemma s_ddc_close c sum sum' B d : simple_drow d -> 0 <= B ->
+  cl (B * eps c) (fq sum) (fq sum') -> (c + 2 <= fp sum)%nat ->
+  cl ((B + 1) * eps c) (fq (s_ddc rnd false c sum d)) (fq (s_ddc noround false c sum' d)).
+Proof.
+  intros PO BP CS W. unfold s_ddc, settle. cbn [raise fq]. pose proof (eps_pos c) as EPS.
+  setoid_replace ((B + 1) * eps c) with (B * eps c + eps c) by ring.
+  destruct (nonzero_pct (dd_pct d)) as [p|] eqn:NP.
+  - pose proof (nonzero_pct_ok _ _ PO NP) as P1. unfold prod. cbn [fq fp]. unfold noround at 1.
+    destruct (dd_base d) as [b|].
+    + unfold s_base. cbn [raise fq fp of_amount].
+      eapply cl_weaken; [apply (cl_rnd_w c); [lia|apply cl_refl]|nra].
+    + apply (cl_rnd_w c); [exact W|]. apply cl_mult; assumption.
+  - eapply cl_weaken; [apply cl_refl|nra].
+Qed.
+
+Lemma s_ddcs_close c sum sum' B ds : Forall simple_drow ds -> 0 <= B ->
+  cl (B * eps c) (fq sum) (fq sum') -> (c + 2 <= fp sum)%nat ->
+  Forall2 (cl ((B + 1) * eps c))
+    (map fq (map snd (map (fun x => (x, s_ddc rnd false c sum x)) ds)))
+    (map fq (map snd (map (fun x => (x, s_ddc noround false c sum' x)) ds))).
+Proof.
+  intros F BP CS W. induction F as [|d r H _ IH]; cbn [map snd]; constructor; [|exact IH].
+  apply s_ddc_close; assumption.
+Qed.
+
+Lemma oQ_opt_sum c xs : oQ (s_opt_sum c xs) == sumQl (map fq xs).
+Proof. unfold s_opt_sum. destruct xs; [reflexivity|]. reflexivity. Qed.
+
+(* ------------------------------------------------------------------------------------------ *)
+(* tax rows, groups and categories                                                             *)
+(* ------------------------------------------------------------------------------------------ *)
+Definition rate_ok (p : option amount) : Prop :=
+  match p with Some q => 0 <= toQ q /\ toQ q <= 1 | None => True end.
+(* tax percentages and surcharges between 0% and 100% *)
+Definition combo_ok (cb : combo) : Prop := rate_ok (cb_pct cb) /\ rate_ok (cb_sur cb).
+
+Inductive rows_close (c : nat) : list Q -> list irow -> list irow -> Prop :=
+| rows_close_nil : rows_close c [] [] []
+| rows_close_cons b r r' bs rs rs' :
+    cl (b * eps c) (fq (ir_total r)) (fq (ir_total r')) -> ir_taxes r' = ir_taxes r ->
+    Forall combo_ok (ir_taxes r) -> 0 <= b ->
+    rows_close c bs rs rs' -> rows_close c (b :: bs) (r :: rs) (r' :: rs').
+
+Definition row_prec (c : nat) (r : irow) : Prop := ir_taxes r = [] \/ (c + 2 <= fp (ir_total r))%nat.
+
+Lemma rows_close_app c b1 r1 r1' b2 r2 r2' :
+  rows_close c b1 r1 r1' -> rows_close c b2 r2 r2' -> rows_close c (b1 ++ b2) (r1 ++ r2) (r1' ++ r2').
+Proof. intros H1 H2. induction H1; cbn [app]; [exact H2|constructor; assumption]. Qed.
+
+Lemma prepare_close c bs rs rs' : rows_close c bs rs rs' ->
+  rows_close c bs (map (s_prepare c) rs) (map (s_prepare c) rs') /\ Forall (row_prec c) (map (s_prepare c) rs).
+Proof.
+  intros H. induction H as [|b r r' bs rs rs' C E F B _ [IH1 IH2]]; cbn [map]; [split; constructor|].
+  assert (K : cl (b * eps c) (fq (ir_total (s_prepare c r))) (fq (ir_total (s_prepare c r'))) /\
+              ir_taxes (s_prepare c r') = ir_taxes (s_prepare c r) /\
+              ir_taxes (s_prepare c r) = ir_taxes r /\ row_prec c (s_prepare c r)).
+  { unfold s_prepare, row_prec. rewrite E. destruct (ir_taxes r) eqn:T.
+    - split; [exact C|]. split; [congruence|]. split; [exact T|left; exact T].
+    - cbn [ir_total ir_taxes raise fq fp]. split; [exact C|]. split; [reflexivity|]. split; [reflexivity|right; lia]. }
+  destruct K as (K1 & K2 & K3 & K4).
+  split; [constructor; try assumption|constructor; assumption].
+  rewrite K3. exact F.
+Qed.
+
+Lemma inv_le_1 p : 0 <= p -> Qabs (/ (p + 1)) <= 1.
+Proof.
+  intros H. assert (P : 0 < p + 1) by lra.
+  rewrite Qabs_pos by (apply Qlt_le_weak, Qinv_lt_0_compat, P).
+  setoid_replace (/ (p + 1)) with (1 / (p + 1)) by (unfold Qdiv; ring).
+  apply Qle_shift_div_r; [exact P|lra].
+Qed.
+
+Lemma get_combo_in pit cbs cb : get_combo pit cbs = Some cb -> In cb cbs.
+Proof.
+  induction cbs as [|x r IH]; cbn [get_combo]; [discriminate|].
+  destruct (eqb_bytes (cb_cat x) pit); [intros E; injection E as <-; left; reflexivity|intros E; right; apply IH, E].
+Qed.
+
+Lemma remove_close c pit b r r' : cl (b * eps c) (fq (ir_total r)) (fq (ir_total r')) -> ir_taxes r' = ir_taxes r ->
+  Forall combo_ok (ir_taxes r) -> row_prec c r ->
+  match s_remove rnd pit r, s_remove noround pit r' with
+  | Some x, Some x' => cl ((b + 1) * eps c) (fq (ir_total x)) (fq (ir_total x')) /\ ir_taxes x' = ir_taxes x /\
+                       ir_taxes x = ir_taxes r /\ row_prec c x
+  | None, None => True
+  | _, _ => False
+  end.
+Proof.
+  intros C E F PR. pose proof (eps_pos c) as EPS.
+  assert (W0 : cl ((b + 1) * eps c) (fq (ir_total r)) (fq (ir_total r'))) by (eapply cl_weaken; [exact C|lra]).
+  unfold s_remove. rewrite E. destruct pit; [repeat split; assumption|].
+  destruct (get_combo _ _) as [cb|] eqn:G; [|repeat split; assumption].
+  destruct (cb_retained cb); [exact I|].
+  destruct (cb_pct cb) as [p|] eqn:EP; [|repeat split; assumption].
+  cbn [ir_total ir_taxes fq fp]. split; [|split; [reflexivity|split; [reflexivity|]]].
+  - apply get_combo_in in G. rewrite Forall_forall in F. destruct (F cb G) as [R1 _]. rewrite EP in R1. cbn [rate_ok] in R1.
+    destruct PR as [T|W]; [rewrite T in G; destruct G|].
+    unfold noround. setoid_replace ((b + 1) * eps c) with (b * eps c + eps c) by ring.
+    apply (cl_rnd_w c); [exact W|]. unfold Qdiv. apply cl_mult; [exact C|apply inv_le_1, R1].
+  - destruct PR as [T|W]; [left; exact T|right; exact W].
+Qed.
+
+Lemma remove_all_close c pit bs rs rs' : rows_close c bs rs rs' -> Forall (row_prec c) rs ->
+  match s_remove_all rnd pit rs, s_remove_all noround pit rs' with
+  | Some xs, Some xs' => rows_close c (map (fun b => b + 1) bs) xs xs' /\ Forall (row_prec c) xs
+  | None, None => True
+  | _, _ => False
+  end.
+Proof.
+  intros H. induction H as [|b r r' bs rs rs' C E F B _ IH]; intros PR; cbn [s_remove_all map]; [split; constructor|].
+  inversion PR as [|? ? P1 P2]; subst.
+  pose proof (remove_close c pit b r r' C E F P1) as K.
+  destruct (s_remove rnd pit r) as [x|]; destruct (s_remove noround pit r') as [x'|]; try contradiction;
+    specialize (IH P2); destruct (s_remove_all rnd pit rs) as [xs|]; destruct (s_remove_all noround pit rs') as [xs'|];
+    try contradiction; try exact I.
+  destruct K as (K1 & K2 & K3 & K4). destruct IH as [I1 I2].
+  split; [constructor; try assumption|constructor; assumption].
+  - rewrite K3. exact F.
+  - lra.
+Qed.
+
+(* groups and categories: same shape whatever the rounding operator; distance of the bases *)
+Fixpoint gdist (gs gs' : list igroup) : Q :=
+  match gs, gs' with
+  | g :: r, g' :: r' => Qabs (fq (ig_base g) - fq (ig_base g')) + gdist r r'
+  | _, _ => 0
+  end.
+Definition gshape (c : nat) (g g' : igroup) : Prop :=
+  ig_cb g' = ig_cb g /\ combo_ok (ig_cb g) /\ (c + 2 <= fp (ig_base g))%nat.
+Fixpoint cdist (cts cts' : list icat) : Q :=
+  match cts, cts' with
+  | ct :: r, ct' :: r' => gdist (ic_groups ct) (ic_groups ct') + cdist r r'
+  | _, _ => 0
+  end.
+Definition cshape (c : nat) (ct ct' : icat) : Prop :=
+  ic_code ct' = ic_code ct /\ ic_retained ct' = ic_retained ct /\ Forall2 (gshape c) (ic_groups ct) (ic_groups ct').
+Definition ngroups (cts : list icat) : nat := fold_right (fun ct n => (length (ic_groups ct) + n)%nat) 0%nat cts.
+
+Lemma gdist_nonneg gs : forall gs', 0 <= gdist gs gs'.
+Proof.
+  induction gs as [|g r IH]; intros [|g' r']; cbn [gdist]; try lra.
+  pose proof (Qabs_nonneg (fq (ig_base g) - fq (ig_base g'))). specialize (IH r'). lra.
+Qed.
+
+Lemma add_to_groups_close c tot tot' cb gs gs' :
+  Forall2 (gshape c) gs gs' -> combo_ok cb -> (c + 2 <= fp tot)%nat ->
+  Forall2 (gshape c) (s_add_to_groups rnd false c tot cb gs) (s_add_to_groups noround false c tot' cb gs') /\
+  gdist (s_add_to_groups rnd false c tot cb gs) (s_add_to_groups noround false c tot' cb gs')
+    <= gdist gs gs' + Qabs (fq tot - fq tot') /\
+  (length (s_add_to_groups rnd false c tot cb gs) <= length gs + 1)%nat.
+Proof.
+  intros F OK W. induction F as [|g g' r r' (E & O & P) Hr IH]; cbn [s_add_to_groups].
+  - split; [|split; [|cbn; lia]].
+    + constructor; [|constructor]. unfold gshape, s_add_base. cbn [ig_cb ig_base fp]. split; [reflexivity|split; [exact OK|lia]].
+    + cbn [gdist s_add_base ig_base fq].
+      setoid_replace (0 + fq tot - (0 + fq tot')) with (fq tot - fq tot') by ring. lra.
+  - assert (M : ig_matches g' cb = ig_matches g cb) by (unfold ig_matches; rewrite E; reflexivity).
+    rewrite M. destruct (ig_matches g cb).
+    + split; [|split; [|cbn [length]; lia]].
+      * constructor; [|exact Hr]. unfold gshape, s_add_base. cbn [ig_cb ig_base fp]. split; [first [exact E|reflexivity]|split; [exact O|lia]].
+      * cbn [gdist s_add_base ig_base fq].
+        setoid_replace (fq (ig_base g) + fq tot - (fq (ig_base g') + fq tot'))
+          with ((fq (ig_base g) - fq (ig_base g')) + (fq tot - fq tot')) by ring.
+        pose proof (Qabs_triangle (fq (ig_base g) - fq (ig_base g')) (fq tot - fq tot')). lra.
+    + destruct IH as (I1 & I2 & I3). split; [|split; [|cbn [length]; lia]].
+      * constructor; [split; [exact E|split; [exact O|exact P]]|exact I1].
+      * cbn [gdist]. lra.
+Qed.
+
+Lemma add_to_cats_close c tot tot' cb cts cts' :
+  Forall2 (cshape c) cts cts' -> combo_ok cb -> (c + 2 <= fp tot)%nat ->
+  Forall2 (cshape c) (s_add_to_cats rnd false c tot cb cts) (s_add_to_cats noround false c tot' cb cts') /\
+  cdist (s_add_to_cats rnd false c tot cb cts) (s_add_to_cats noround false c tot' cb cts')
+    <= cdist cts cts' + Qabs (fq tot - fq tot') /\
+  (ngroups (s_add_to_cats rnd false c tot cb cts) <= ngroups cts + 1)%nat.
+Proof.
+  intros F OK W. induction F as [|ct ct' r r' (E & Rt & G) Hr IH]; cbn [s_add_to_cats].
+  - destruct (add_to_groups_close c tot tot' cb [] [] (Forall2_nil _) OK W) as (A1 & A2 & A3).
+    split; [|split].
+    + constructor; [|constructor]. repeat split. exact A1.
+    + cbn [cdist ic_groups]. cbn [gdist] in A2. lra.
+    + cbn [ngroups fold_right ic_groups]. cbn [length] in A3. lia.
+  - rewrite E. destruct (eqb_bytes (ic_code ct) (cb_cat cb)).
+    + destruct (add_to_groups_close c tot tot' cb _ _ G OK W) as (A1 & A2 & A3).
+      split; [|split].
+      * constructor; [|exact Hr]. repeat split; try assumption.
+      * cbn [cdist ic_groups]. lra.
+      * cbn [ngroups fold_right ic_groups]. fold (ngroups r). lia.
+    + destruct IH as (I1 & I2 & I3). split; [|split].
+      * constructor; [repeat split; assumption|exact I1].
+      * cbn [cdist]. lra.
+      * cbn [ngroups fold_right]. fold (ngroups r). fold (ngroups (s_add_to_cats rnd false c tot cb r)). lia.
+Qed.
